@@ -232,6 +232,16 @@ func coqPartsList(pss [][]Part) string {
 	return cg.List(items)
 }
 
+// coqCtxShared: like coqCtx, with the Taskfile-level env / vars given by name (defined once per case)
+func coqCtxShared(x Ctx, genvName, gvarsName string) string {
+	return fmt.Sprintf("{| x_name := %s; x_special := %s; x_genv := %s; x_gvars := %s; x_incvars := []; x_incfile := []; "+
+		"x_call := %s; x_tvars := %s; x_root_dir := %s; x_task_dir := %s; x_dir_tmpl := %s; x_tdot := %s; x_tenv := %s; x_matrix := %s; "+
+		"x_vprobes := %s; x_eprobes := %s; x_defers := %s |}",
+		cg.Str(x.Name), coqVars(x.Special), genvName, gvarsName, coqEntries(x.Call), coqEntries(x.TVars),
+		cg.Str(x.RootDir), cg.Str(x.TaskDir), coqDirTmpl(x.DirVar), coqVarsList(x.TDot), coqEntries(x.TEnv), coqOptStr(x.Matrix),
+		cg.StrList(x.VProbes), cg.StrList(x.EProbes), coqPartsList(x.Defers))
+}
+
 func coqCtx(x Ctx) string {
 	return fmt.Sprintf("{| x_name := %s; x_special := %s; x_genv := %s; x_gvars := %s; x_incvars := []; x_incfile := []; "+
 		"x_call := %s; x_tvars := %s; x_root_dir := %s; x_task_dir := %s; x_dir_tmpl := %s; x_tdot := %s; x_tenv := %s; x_matrix := %s; "+
